@@ -228,8 +228,12 @@ err_t ch_read(size_t* read, void* buf, size_t count, void* file)
 		{
 			n = k, ++m->frag;
 			count_fault(f);
+			/* a reader that does not look at the returned count works on a partly stale buffer.
+			   Nothing on the wire was altered, so this is a delivery (liveness) fault: the run may
+			   fail, and if the stale octets happen to match (1/256 for a 7-of-8 octet tag) it may
+			   even succeed - with the right key */
 			if (!(ch->fragment_honest & (1 << (dir * 4 + m->ord))))
-				ch->tampered = 1; /* the reader does not look at the returned count */
+				ch->liveness = 1;
 			sk_count("probe.short_read_delivered", 1);
 		}
 	}
